@@ -114,6 +114,15 @@ func Seq3(yield func(int) bool) {
 	}
 }
 
+// named types with the underlying types of the ranged collections
+type (
+	SliceT []int
+	ArrT   [3]int
+	StrT   string
+	IntT   int
+	ChanT  chan int
+)
+
 // B2I converts a bool to 0 / 1.
 func B2I(b bool) int {
 	if b {
